@@ -31,6 +31,7 @@ func init() {
 	mk("R-SPELL", []string{"C06", "C07", "C09", "C10", "C11"}, "fixed-spelling token types are returned only after consuming exactly their spelling")
 	mk("R-INPLACE", []string{"C02"}, "input bytes are rewritten in place only at the audited sites (HTML name case folding, XML attribute whitespace)")
 	mk("R-RESTORE", []string{"C02", "C06", "C07"}, "a scanner that reports failure without an error leaves the cursor where it started")
+	mk("R-EOFNEST", []string{"C08"}, "css parser: while a block is open ErrorGrammar is returned only together with a recorded parse error (the end of input is never reported silently inside a block)")
 	mk("R-TAGSTATE", []string{"C09", "C11"}, "attribute tokens only between a start tag and its closing token (inTag protocol)")
 }
 
@@ -177,7 +178,7 @@ func emitEngine(r *core.Run, rule string) {
 			r.Note("%s", nn)
 		}
 	}
-	floors := map[string]int{"R-CURSOR": 500, "R-PROGRESS": 60, "R-EOF": 5, "R-ERRMOVE": 20, "R-TILE": 60, "R-SPELL": 60, "R-TAGSTATE": 10, "R-ERRSTUCK": 12, "R-INPLACE": 4, "R-RESTORE": 30}
+	floors := map[string]int{"R-CURSOR": 500, "R-PROGRESS": 60, "R-EOF": 5, "R-ERRMOVE": 20, "R-TILE": 60, "R-SPELL": 60, "R-TAGSTATE": 10, "R-ERRSTUCK": 12, "R-INPLACE": 4, "R-RESTORE": 30, "R-EOFNEST": 3}
 	if _, filtered := pkgFilter[r.Prop]; !filtered && r.Prop != "C15" {
 		r.Floor("engine obligations "+rule, n, floors[rule])
 	} else {
@@ -201,6 +202,9 @@ func runEngineAll(r *core.Run) *engResult {
 	if os.Getenv("PCHECK_ONLY") == "" {
 		runPosition(sub, &tasks)
 		runJSParsePrefix(sub, &tasks)
+	}
+	if only := os.Getenv("PCHECK_ONLY"); only == "" || only == "cssparser" {
+		runCSSParser(sub, &tasks)
 	}
 	var wg sync.WaitGroup
 	sem := make(chan struct{}, 14)
@@ -599,3 +603,77 @@ func runJSParsePrefix(r *core.Run, tasks *[]*engTask) {
 
 var _ = sort.Strings
 var _ = types.Typ
+
+// runCSSParser: R-EOFNEST. css.Parser.Next is analysed with at least one block open
+// (len(state) >= 2); the dynamic call through the state stack is resolved to each
+// of the state functions that are ever pushed.
+func runCSSParser(r *core.Run, tasks *[]*engTask) {
+	fn := r.Prog.SSAFunc("css", "Parser", "Next")
+	if fn == nil {
+		r.SetRule("R-EOFNEST")
+		r.BrokenAnchor("css.Parser.Next")
+		return
+	}
+	pushed := map[*ssa.Function]bool{}
+	for _, f := range cssParserFuncs(r) {
+		if f.Name() == "NewParser" {
+			continue
+		}
+		for _, op := range stackOps(f, "css.Parser", "state") {
+			if op.kind == "push" {
+				if t := thunkTarget(op.pushed); t != nil {
+					pushed[t] = true
+				}
+			}
+		}
+	}
+	var targets []*ssa.Function
+	for f := range pushed {
+		targets = append(targets, f)
+	}
+	sort.Slice(targets, func(i, j int) bool { return targets[i].Name() < targets[j].Name() })
+	if len(targets) < 3 {
+		r.SetRule("R-EOFNEST")
+		r.BrokenAnchor("pushed css state functions")
+		return
+	}
+	for _, t := range targets {
+		t := t
+		cfg := EngCfg{Rel: "css", Owners: map[string]bool{"css.Parser": true}, Only: "R-EOFNEST", NoTile: true,
+			DynTargets: []*ssa.Function{t}, StrPaths: map[string]bool{"css.Parser.err": true}, Tag: "css.Parser.Next in state " + t.Name()}
+		e := NewEngine(r, cfg)
+		e.opaqueOK = true // the lexer is a black box here: any token type, cursor unknown
+		e.onReturn = func(st *State, ret []AbsVal, at *ssa.Return) {
+			if len(ret) < 1 {
+				return
+			}
+			gt, isConst := ret[0].constInt()
+			key := "css.Parser.Next in " + t.Name()
+			if ret[0].k == vInt {
+				has0 := false
+				for _, v := range ret[0].ints {
+					if v == 0 {
+						has0 = true
+					}
+				}
+				if !has0 {
+					e.check(st, "R-EOFNEST", key+" (no error unit)", at.Pos(), true, "")
+					return
+				}
+			}
+			errv, known := st.heap["css.Parser.err"].constInt()
+			switch {
+			case isConst && gt == 0 && known && errv == 1:
+				e.check(st, "R-EOFNEST", key+" (ErrorGrammar with a parse error)", at.Pos(), true, "")
+			case isConst && gt == 0 && known && errv == 0:
+				e.check(st, "R-EOFNEST", key+" silent ErrorGrammar", at.Pos(), false, "with a block open (state "+t.Name()+" on the stack) Next can return ErrorGrammar without a parse error: the consumer sees the end-of-input report (Err() == io.EOF) before the matching End unit, so a Begin unit is never closed for a consumer that stops at the end of input")
+			default:
+				e.undecided(st, "R-EOFNEST", key+" undetermined", at.Pos(), "the returned grammar type or the error state is not determined on this path")
+			}
+		}
+		st := freshEntry()
+		st.coarse = true
+		st.heap["lo:len(css.Parser.state)"] = intVal(2)
+		*tasks = append(*tasks, &engTask{e: e, run: func() { e.Run(fn, st, nil) }})
+	}
+}
